@@ -1829,4 +1829,74 @@ theorem getIeeeCompressed_listed (r : R) (cb : Node) (col : List Node) (g : Rang
   simp [mid]
   rfl
 
+/-! ### compressed IEEE column, writer to reader -/
+
+/-- the bits `bufr_put_ieeefp_compressed` appends -/
+theorem putIeeeCompressed_bits (w : W) (hI : WInv w) (n0 : Node) (rest : List Node) (nb : Nat)
+    (hnb : nb = if n0.enc.nbits = 64 then 64 else 32) :
+    (putIeeeCompressed w (n0 :: rest)).bits = w.bits ++
+      (if ((n0 :: rest).map valueBits).all (· = valueBits n0) then bitsMSB nb (valueBits n0) ++ bitsMSB 6 0
+       else bitsMSB nb 0 ++ bitsMSB 6 (nb / 8) ++ ((n0 :: rest).map valueBits).flatMap (bitsMSB nb)) ∧
+    WInv (putIeeeCompressed w (n0 :: rest)) := by
+  unfold putIeeeCompressed
+  simp only
+  rw [← hnb]
+  by_cases hall : ((n0 :: rest).map valueBits).all (· = valueBits n0) = true
+  · rw [if_pos hall, if_pos hall]
+    obtain ⟨p1, i1⟩ := putbits_bits w (valueBits n0) nb hI
+    obtain ⟨p2, i2⟩ := putbits_bits _ 0 6 i1
+    exact ⟨by rw [p2, p1, List.append_assoc], i2⟩
+  · rw [if_neg hall, if_neg hall]
+    obtain ⟨p1, i1⟩ := putbits_bits w 0 nb hI
+    obtain ⟨p2, i2⟩ := putbits_bits _ (nb / 8) 6 i1
+    obtain ⟨p3, i3⟩ := foldl_putbits_bits nb id ((n0 :: rest).map valueBits) _ i2
+    simp only [id_eq, List.map_id_fun, id] at p3 i3
+    refine ⟨?_, i3⟩
+    rw [p3, p2, p1]
+    simp [List.append_assoc]
+
+/-- **compressed IEEE column round trip**: whatever the encoder writes for a column of IEEE fields — the value once
+when all subsets hold the same bits, every value in full otherwise — the decoder gives each subset of the request
+its own bits back (for the whole dataset or any slice) and ends right behind the column -/
+theorem ieee_column_roundtrip (w : W) (hI : WInv w) (n0 : Node) (rest : List Node)
+    (r : R) (hIr : RInv r) (tail : List Bool)
+    (hb : w.bits ++ r.bits = (putIeeeCompressed w (n0 :: rest)).bits ++ tail)
+    (cb : Node) (col : List Node) (hnb : cb.enc.nbits = if n0.enc.nbits = 64 then 64 else 32)
+    (g : Range) (hg : g.OK) (hn : g.nsub = (n0 :: rest).length) (hcol : (cb :: col).length = g.count) :
+    ∃ r', getIeeeCompressed r (cb :: col) g =
+        some (r', zipWithNodes ieeeSetv (cb :: col)
+          ((g.slice ((n0 :: rest).map valueBits)).map (· % 2^cb.enc.nbits.toNat))) ∧
+      r'.bits = tail ∧ RInv r' := by
+  obtain ⟨pb, _⟩ := putIeeeCompressed_bits w hI n0 rest _ rfl
+  rw [pb, List.append_assoc] at hb
+  have hb' := List.append_cancel_left hb
+  have hnbn : cb.enc.nbits.toNat = (if n0.enc.nbits = 64 then 64 else 32 : Nat) := by
+    rw [hnb]; split <;> rfl
+  have hrange : 1 ≤ cb.enc.nbits ∧ cb.enc.nbits ≤ 64 := by rw [hnb]; split <;> omega
+  by_cases hall : ((n0 :: rest).map valueBits).all (· = valueBits n0) = true
+  · rw [if_pos hall, ← hnbn] at hb'
+    obtain ⟨r', e, hr, hi⟩ := getIeeeCompressed_const r cb col g (valueBits n0) tail hIr hrange hb'
+    refine ⟨r', ?_, hr, hi⟩
+    rw [e]
+    congr 2
+    -- every value of the slice is the common value
+    have hconst : ∀ v ∈ g.slice ((n0 :: rest).map valueBits), v = valueBits n0 := by
+      intro v hv
+      have := Range.slice_mem g _ v hv
+      exact of_decide_eq_true (List.all_eq_true.mp hall v this)
+    have hlen : (g.slice ((n0 :: rest).map valueBits)).length = (cb :: col).length := by
+      rw [Range.slice_length g hg _ (by simp [hn]), hcol]
+    exact (zipWithNodes_const ieeeSetv (valueBits n0 % 2^cb.enc.nbits.toNat) (cb :: col) _ (by rw [List.length_map, hlen])
+      (by intro v hv; obtain ⟨x, hx, rfl⟩ := List.mem_map.mp hv; rw [hconst x hx])).symm
+  · rw [if_neg hall, ← hnbn] at hb'
+    have hk : (if n0.enc.nbits = 64 then 64 else 32 : Nat) / 8 > 0 ∧ (if n0.enc.nbits = 64 then 64 else 32 : Nat) / 8 < 64 := by
+      split <;> omega
+    rw [hnbn] at hb'
+    rw [← hnbn] at hb'
+    have hb'' : r.bits = bitsMSB cb.enc.nbits.toNat 0 ++ bitsMSB 6 ((if n0.enc.nbits = 64 then 64 else 32 : Nat) / 8) ++
+        ((n0 :: rest).map valueBits).flatMap (bitsMSB cb.enc.nbits.toNat) ++ tail := by
+      rw [hb']
+      simp [hnbn, List.append_assoc]
+    exact getIeeeCompressed_listed r cb col g 0 _ _ tail hIr hrange hk.1 hk.2 hg (by simp [hn]) hb''
+
 end Bufr
